@@ -61,7 +61,7 @@ def reg_access(rs):
 
 
 def _builder_ops(depth=0):
-    name = st.sampled_from(["a", "b", "c", "reg", "x0", "mux", "0", "1"])
+    name = st.sampled_from(["a", "b", "c", "reg", "x0", "mux", "0", "1", "a_b", "a_0", "b_reg"])
     add = st.tuples(st.just("add"), name, _reg_spec(),
                     gens.weighted((6, st.none()), (1, st.integers(0, 24)))).map(list)
     if depth >= 2:
@@ -197,8 +197,7 @@ def make_register(rs):
 def build(spec):
     c, p = spec["cls"], spec["p"]
     if c == "mux":
-        mm, regs = gens.build_csr_map(p)
-        comp = csr.Multiplexer(mm, shadow_overlaps=p.get("ov"))
+        comp, regs = gens.build_csr_mux(dict(p, mid_elab=False), p.get("ov"))
         ports = flat_signals(comp)
         for r, _, _ in regs:
             ports += flat_signals(r)
